@@ -7,6 +7,7 @@ import RbV.Model.QGramMatches
 import RbV.Model.QGramIndex
 import RbV.Model.QGramExact
 import RbV.Model.LcskFwd
+import RbV.Model.Lcskpp
 /-! Driver for property C19 (line protocol → verdict).
 
 ```
@@ -17,7 +18,7 @@ c19 idx    <alpha hex> <q> <max_count|max> <text hex> <query;query;…>
            res    positions | ps:pe:ts:te:count,… | ps:pe:ts:te,… | P!<panic class>
 c19 kmer   <k> <x hex> <y hex> <match_score> <gap_open> <gap_extend>
                                                                => m=<pairs> h1=<pairs> h2=<pairs> score=<n> path=<idx> sdp=<idx> uni=<idx>
-c19 lcs    <k> <x:y,x:y,…>                                     => score=<n> path=<idx>
+c19 lcs    <k> <x:y,x:y,…>                                     => score=<n> path=<idx> dp=<scores> dpf=<score:ptr+1,…>
 c19 sdp    <k> <match_score> <gap_open> <gap_extend> <x:y,…>   => sdp=<idx> uni=<idx>
 c19 expand <k> <allowed_mismatches> <x hex> <y hex> <x:y,…>    => exp=<pairs> score=<n> path=<idx>
 ```
@@ -234,6 +235,10 @@ def lcsCheck (ms : List M) (k : Nat) (out : String) : Option String × List Stri
       match optOf ms k with
       | none => (some "bad-op oracle-dp-vs-enum", [])
       | some opt =>
+        let mdl : Option Model.Lcskpp.Res := match Model.Lcskpp.lcskpp ms k with | .ok r => some r | .error _ => none
+        -- proved: on a strictly sorted list the model answers, with the optimum (a failure is a driver/model defect)
+        if (match mdl with | some r => r.score ≠ opt || !validChain ms k r.path || score k (pathMatches ms r.path) ≠ opt | none => true)
+          then (some "bad-op lcskpp-model-vs-oracle", []) else
         let cs := score k (pathMatches ms path)
         if cs ≠ opt then (some s!"reject lcskpp-chain-not-optimal chain-score={cs} optimum={opt}", [])
         else if sc ≠ opt then (some s!"diff score {opt}", [])
@@ -243,6 +248,16 @@ def lcsCheck (ms : List M) (k : Nat) (out : String) : Option String × List Stri
               (match (outField out "dp").bind parseNatList with
                | some dp => if dp = dpScores ms k then ["dp-cells-agree"] else ["drift-dp-cells"]
                | none => ["dp-not-reported"]) ++
+              -- the mirror model of the whole routine (event sort, Fenwick sweep, traceback), proved optimal
+              -- (Thm.C19.lcskpp_model_optimal); which optimal chain / which dp cells is not fixed by the property ⇒ drift tags
+              (match mdl with
+               | some r =>
+                 (if r.path = path && r.score = sc then ["model-path-score-agree"] else
+                    (if r.path ≠ path then ["drift-model-path"] else []) ++ (if r.score ≠ sc then ["drift-model-score"] else [])) ++
+                 (match (outField out "dpf").bind parsePairs with
+                  | some dpf => if dpf = r.dp.map (fun c => (c.1, (c.2 + 1).toNat)) then ["model-dp-vector-agrees"] else ["drift-model-dp-vector"]
+                  | none => ["dpf-not-reported"])
+               | none => []) ++
               (if (pathMatches ms path).zip ((pathMatches ms path).drop 1) |>.any (fun (a, b) => cont a b && !nonov k a b) then ["has-cont"] else []) ++
               (if (pathMatches ms path).zip ((pathMatches ms path).drop 1) |>.any (fun (a, b) => nonov k a b) then ["has-jump"] else []) ++
               (if ms.length ≤ 12 then ["enum-checked"] else []))
